@@ -419,6 +419,7 @@ const c8BadBase = 6_000_000
 const c8IDBase = 7_000_000
 const c8OwnBase = 8_000_000
 const c8APIBase = 9_000_000
+const c8DeepBase = 9_500_000
 
 type c8Run struct {
 	out   *vOut
@@ -1056,6 +1057,47 @@ func (h *c8Run) corpus(c int) {
 				Sum: negz, QuantileValues: []*otlpmetrics.SummaryDataPoint_ValueAtQuantile{{Quantile: negz, Value: 1.5}}}}}}}}}}}}}
 		h.runValue(R["metrics"], x)
 		h.stat("field.SummaryDataPoint.Sum")
+		// the same through the PUBLIC API, compared bit for bit (runValue above compares the canonical form, in which
+		// -0.0 ≡ +0.0 for plain double fields, exactly like Go's ==): is math.Signbit preserved? (observation only)
+		{
+			md := pmetric.NewMetrics()
+			ms := md.ResourceMetrics().AppendEmpty().ScopeMetrics().AppendEmpty().Metrics()
+			ms.AppendEmpty().SetEmptyExponentialHistogram().DataPoints().AppendEmpty().SetZeroThreshold(negz)
+			ms.AppendEmpty().SetEmptySummary().DataPoints().AppendEmpty().SetSum(negz)
+			signs := func(m pmetric.Metrics) (bool, bool) {
+				l := m.ResourceMetrics().At(0).ScopeMetrics().At(0).Metrics()
+				return math.Signbit(l.At(0).ExponentialHistogram().DataPoints().At(0).ZeroThreshold()),
+					math.Signbit(l.At(1).Summary().DataPoints().At(0).Sum())
+			}
+			res := c8Guard(func() c8Res {
+				out := ""
+				if b, err := (&pmetric.ProtoMarshaler{}).MarshalMetrics(md); err == nil {
+					if back, err := (&pmetric.ProtoUnmarshaler{}).UnmarshalMetrics(b); err == nil {
+						if z, s := signs(back); !z || !s {
+							out += "pb "
+						}
+					}
+				}
+				if b, err := (&pmetric.JSONMarshaler{}).MarshalMetrics(md); err == nil {
+					if back, err := (&pmetric.JSONUnmarshaler{}).UnmarshalMetrics(b); err == nil {
+						if z, s := signs(back); !z || !s {
+							out += "json "
+						}
+					}
+				}
+				return c8Res{panic: "", b: []byte(out)}
+			})
+			// OBSERVATION, not a violation: payload equality is Go's == / reflect.DeepEqual, under which -0.0 == +0.0 (proto3 does not
+			// serialise a zero default); the sign of zero of a plain double field is not preserved by either codec. Counted in the evidence.
+			if strings.Contains(string(res.b), "pb") {
+				h.stat("negative_zero_sign_lost.pb")
+				h.out.Linef("tr negative_zero_sign_lost codec=pb fields=ExponentialHistogramDataPoint.ZeroThreshold,SummaryDataPoint.Sum")
+			}
+			if strings.Contains(string(res.b), "json") {
+				h.stat("negative_zero_sign_lost.json")
+				h.out.Linef("tr negative_zero_sign_lost codec=json fields=ExponentialHistogramDataPoint.ZeroThreshold,SummaryDataPoint.Sum")
+			}
+		}
 		h.end(true)
 	case 5:
 		h.begin(c, "deprecated", "logs")
@@ -1253,6 +1295,128 @@ func (h *c8Run) apiBlock(replay, per int) {
 			h.emptyIsNil = false
 			h.end(a.calls > 3)
 		}
+	}
+}
+
+// ---- deep nesting -----------------------------------------------------------------------------------------------
+
+func c8DeepUvarint(b []byte, v uint64) []byte {
+	for v >= 0x80 {
+		b = append(b, byte(v)|0x80)
+		v >>= 7
+	}
+	return append(b, byte(v))
+}
+
+func c8SovN(v int) int { return len(c8DeepUvarint(nil, uint64(v))) }
+
+// c8DeepAny: an AnyValue nested `depth` levels through array_value (kv=false: AnyValue{5: ArrayValue{1: AnyValue…}}) or
+// kvlist_value (kv=true: AnyValue{6: KeyValueList{1: KeyValue{2: AnyValue…}}}), written outside-in from precomputed sizes (linear).
+func c8DeepAny(depth int, kv bool) []byte {
+	leaf := []byte{0x0a, 0x01, 'x'} // string_value "x"
+	sz := make([]int, depth+1)
+	sz[0] = len(leaf)
+	for k := 1; k <= depth; k++ {
+		inner := 1 + c8SovN(sz[k-1]) + sz[k-1] // values(1) / value(2) entry holding the AnyValue
+		if kv {
+			inner = 1 + c8SovN(inner) + inner // KeyValueList.values(1) entry holding the KeyValue
+		}
+		sz[k] = 1 + c8SovN(inner) + inner
+	}
+	out := make([]byte, 0, sz[depth])
+	for k := depth; k >= 1; k-- {
+		e := 1 + c8SovN(sz[k-1]) + sz[k-1]
+		if kv {
+			out = append(out, 0x32) // kvlist_value
+			out = c8DeepUvarint(out, uint64(1+c8SovN(e)+e))
+			out = append(out, 0x0a) // KeyValueList.values
+			out = c8DeepUvarint(out, uint64(e))
+			out = append(out, 0x12) // KeyValue.value
+		} else {
+			out = append(out, 0x2a) // array_value
+			out = c8DeepUvarint(out, uint64(e))
+			out = append(out, 0x0a) // ArrayValue.values
+		}
+		out = c8DeepUvarint(out, uint64(sz[k-1]))
+	}
+	return append(out, leaf...)
+}
+
+func c8WrapLD(field int, p []byte) []byte {
+	out := c8DeepUvarint(nil, uint64(field)<<3|2)
+	out = c8DeepUvarint(out, uint64(len(p)))
+	return append(out, p...)
+}
+
+// deepBlock: each case is one deep input offered to one unmarshaler under the guard; `full` also runs the fixed-point oracle
+// (re-marshalling is quadratic in the depth for nested one-ofs in gogo, so only the moderate depths do that).
+func (h *c8Run) deepBlock(replay int) {
+	idx := c8DeepBase
+	run := func(root, what string, json bool, doc []byte, full bool) {
+		c := idx
+		idx++
+		if replay >= 0 && replay != c {
+			return
+		}
+		r := h.roots[root]
+		h.begin(c, "deep", r.name)
+		h.out.Linef("op fuzz %s deep %s", r.name, what)
+		var res c8Res
+		if json {
+			res = h.jdec(r, doc)
+		} else {
+			res = h.dec(r, doc)
+		}
+		if res.err == nil && !res.hung && res.panic == "" {
+			h.stat("deep.ok")
+			if full {
+				if json {
+					h.fixpointJSON(r, res.x)
+				} else {
+					h.fixpointPB(r, res.x)
+				}
+			}
+		} else {
+			h.stat("deep.err")
+		}
+		h.stats["deep.bytes"] += len(doc)
+		h.out.Linef("obs done")
+		h.end(true)
+	}
+	logsWithBody := func(anyv []byte) []byte { // LogsData{resource_logs{scope_logs{log_records{body}}}}
+		return c8WrapLD(1, c8WrapLD(2, c8WrapLD(2, c8WrapLD(5, anyv))))
+	}
+	spansWithAttr := func(anyv []byte) []byte { // TracesData{resource_spans{scope_spans{spans{attributes{key,value}}}}}
+		kv := append([]byte{0x0a, 0x01, 'k'}, c8WrapLD(2, anyv)...)
+		return c8WrapLD(1, c8WrapLD(2, c8WrapLD(2, c8WrapLD(9, kv))))
+	}
+	for _, d := range []int{1000, 3000, 100000} {
+		ds := strconv.Itoa(d)
+		full := d <= 3000
+		run("logs", "pb-array-"+ds, false, logsWithBody(c8DeepAny(d, false)), full)
+		run("logs", "pb-kvlist-"+ds, false, logsWithBody(c8DeepAny(d, true)), full)
+		run("traces", "pb-attr-array-"+ds, false, spansWithAttr(c8DeepAny(d, false)), full)
+		run("logsreq", "pb-array-"+ds, false, logsWithBody(c8DeepAny(d, false)), full)
+		// unknown groups nested d deep: d start-group tags of field 99, then d end-group tags — at top level and inside a record
+		g := bytes.Repeat([]byte{0x9b, 0x06}, d)
+		g = append(g, bytes.Repeat([]byte{0x9c, 0x06}, d)...)
+		run("logs", "pb-groups-top-"+ds, false, g, full)
+		run("metrics", "pb-groups-record-"+ds, false, c8WrapLD(1, c8WrapLD(2, g)), full)
+		run("profiles", "pb-groups-unbalanced-"+ds, false, bytes.Repeat([]byte{0x9b, 0x06}, d), false)
+		// JSON
+		arr := strings.Repeat(`{"arrayValue":{"values":[`, d) + `{"stringValue":"x"}` + strings.Repeat(`]}}`, d)
+		kvl := strings.Repeat(`{"kvlistValue":{"values":[{"key":"k","value":`, d) + `{"intValue":"1"}` + strings.Repeat(`}]}}`, d)
+		body := func(v string) []byte {
+			return []byte(`{"resourceLogs":[{"scopeLogs":[{"logRecords":[{"body":` + v + `}]}]}]}`)
+		}
+		run("logs", "json-array-"+ds, true, body(arr), full)
+		run("logs", "json-kvlist-"+ds, true, body(kvl), full)
+		run("logsreq", "json-array-"+ds, true, body(arr), full)
+		unkObj := `{"zzUnknown":` + strings.Repeat(`{"a":`, d) + `1` + strings.Repeat(`}`, d) + `,"resourceSpans":[]}`
+		unkArr := `{"zzUnknown":` + strings.Repeat(`[`, d) + strings.Repeat(`]`, d) + `,"resourceMetrics":[]}`
+		run("traces", "json-unknown-objects-"+ds, true, []byte(unkObj), full)
+		run("metrics", "json-unknown-arrays-"+ds, true, []byte(unkArr), full)
+		run("profiles", "json-unclosed-"+ds, true, []byte(`{"zz":`+strings.Repeat(`[{"a":`, d)), false)
 	}
 }
 
@@ -1511,8 +1675,14 @@ func TestVerifC08Codec(t *testing.T) {
 	}
 	// payloads built through the PUBLIC pdata API by random programs (Set*/Put*/SetEmpty*/AppendEmpty/FromRaw only): the driver
 	// checks `prop apibuilt` (ApiBuilt ∧ jcov) on every canonical one — ties the model of the API surface to the real setters.
-	if replay < 0 || (replay >= c8APIBase && replay < c8ExhBase) {
+	if replay < 0 || (replay >= c8APIBase && replay < c8DeepBase) {
 		h.apiBlock(replay, 40)
+	}
+	// totality under DEEP nesting (10^3 … 10^5 levels): nested ArrayValue / KvlistValue, nested unknown groups, nested unknown JSON —
+	// the Go-side recursion of the generated Unmarshal and of jsoniter's Skip, under recover + timeout. The model is not consulted
+	// (`op fuzz`): its theorems are unbounded, the driver's native recursion is not.
+	if replay < 0 || (replay >= c8DeepBase && replay < c8ExhBase) {
+		h.deepBlock(replay)
 	}
 	if (vThorough() && replay < 0) || replay >= c8ExhBase {
 		idx := c8ExhBase
